@@ -185,7 +185,116 @@ def _fresh_cases(tier, rng):
     return out
 
 
+# ------------------------------------------------------------------------------------ bounded: whole models
+MODEL_BOOKS = [
+    # cells: volatile calls and dependents; names: defined names (global) whose formula is volatile / constant / a cell
+    dict(cells={'A1': '=NOW()', 'B1': '=A1+0', 'C1': '=A1', 'A2': '=RAND()', 'B2': '=A2*1', 'C2': '=A2', 'A3': '=TODAY()+7', 'B3': '=A3-7'},
+         names={}),
+    dict(cells={'A1': '=STAMP', 'B1': '=STAMP+0', 'C1': '=NOW()', 'A2': '=DRAW', 'B2': '=DRAW*1', 'A3': '=VAT*100', 'A4': 5, 'B4': '=FIVE+1'},
+         names={'STAMP': 'NOW()', 'DRAW': 'RAND()', 'VAT': '0.2', 'FIVE': 'S!$A$4'}),
+    dict(cells={'A1': '=IF(TRUE,NOW(),0)', 'B1': '=SUM(1,A1)', 'A2': '=RANDBETWEEN(1,1000000)', 'B2': '=A2+0', 'C2': '=A2'},
+         names={}),
+]
+
+
+def _model_cases(tier, rng):
+    return [(i, how) for i in range(len(MODEL_BOOKS)) for how in ('loaded', 'deepcopy', 'json')]
+
+
+def _check_model(case):
+    """A workbook loaded from file (and its deep copy / JSON re-import) is calculated three times with the clock and the random
+    source advanced: every volatile cell and every name-based or cell-based dependent changes each time, dependents of one volatile
+    cell agree within one calculation, constants stay."""
+    import copy
+    import datetime
+    import json
+    import logging
+    import os
+    import shutil
+    import tempfile
+    import numpy as np
+    import openpyxl
+    from openpyxl.workbook.defined_name import DefinedName
+    import formulas
+    import formulas.functions.date as fd
+    i, how = case
+    book = MODEL_BOOKS[i]
+    counter = {'n': 0}
+
+    class _DT(datetime.datetime):
+        @classmethod
+        def now(cls, tz=None):
+            return datetime.datetime(2031, 3, 13) + datetime.timedelta(days=counter['n'], seconds=17 * counter['n'])
+    real_dt, real_rand = fd.datetime.datetime, np.random.rand
+
+    def fake_rand(*a):
+        counter['r'] = counter.get('r', 0) + 1
+        return ((counter['n'] * 1000 + counter['r']) * 0.0137) % 1.0
+    logging.disable(logging.CRITICAL)
+    d = tempfile.mkdtemp(prefix='verif_c13_')
+    fd.datetime.datetime, np.random.rand = _DT, fake_rand
+    try:
+        wb = openpyxl.Workbook()
+        ws = wb.active
+        ws.title = 'S'
+        for ref, v in book['cells'].items():
+            ws[ref] = v
+        for nm, text in book['names'].items():
+            wb.defined_names[nm] = DefinedName(nm, attr_text=text)
+        path = os.path.join(d, 'book.xlsx')
+        wb.save(path)
+        counter['n'] = 1
+        m = formulas.ExcelModel().loads(path).finish()
+        if how == 'deepcopy':
+            m = copy.deepcopy(m)
+        elif how == 'json':
+            m.calculate()
+            m = formulas.ExcelModel().from_dict(json.loads(json.dumps(m.to_dict())))
+        runs = []
+        for step in (2, 3, 5):
+            counter['n'], counter['r'] = step, 0
+            sol = m.calculate()
+            vals = {}
+            for k, v in sol.items():
+                ks = str(k)
+                if '!' in ks and hasattr(v, 'value'):
+                    vals[ks.split('!')[-1]] = np.asarray(v.value, object).ravel()[0]
+            runs.append(vals)
+    except Exception as ex:
+        return 'workbook %d (%s): raised %s: %s' % (i, how, type(ex).__name__, str(ex)[:120])
+    finally:
+        fd.datetime.datetime, np.random.rand = real_dt, real_rand
+        logging.disable(logging.NOTSET)
+        shutil.rmtree(d, ignore_errors=True)
+    cells = book['cells']
+    for ref, f in cells.items():
+        if not isinstance(f, str):
+            continue
+        series = [r.get(ref) for r in runs]
+        volatile = any(w in f for w in ('NOW', 'TODAY', 'RAND', 'STAMP', 'DRAW')) or \
+            any(dep in f and any(w in str(cells[dep]) for w in ('NOW', 'TODAY', 'RAND', 'STAMP', 'DRAW')) for dep in cells if dep != ref)
+        if volatile and len({repr(x) for x in series}) != 3:
+            return 'workbook %d (%s): %s = %s stays at %r over three calculations with the clock / random source advanced' % (i, how, ref, f, series)
+        if not volatile and len({repr(x) for x in series}) != 1:
+            return 'workbook %d (%s): constant cell %s = %s changes: %r' % (i, how, ref, f, series)
+    # one snapshot per calculation: dependents written as X+0 / X*1 / =X agree with their source
+    for r in runs:
+        for a, b in (('A1', 'B1'), ('A1', 'C1'), ('A2', 'B2'), ('A2', 'C2')):
+            fa, fb = cells.get(a), cells.get(b)
+            if isinstance(fb, str) and (fb in ('=%s+0' % a, '=%s*1' % a, '=%s' % a)):
+                if repr(r.get(a)) != repr(r.get(b)) and abs(float(r.get(a)) - float(r.get(b))) > 1e-12:
+                    return 'workbook %d (%s): %s and its dependent %s differ within one calculation: %r vs %r' % (i, how, a, b, r.get(a), r.get(b))
+            if fa in ('=STAMP', '=DRAW') and isinstance(fb, str) and fb in ('=STAMP+0', '=DRAW*1'):
+                if abs(float(r.get(a)) - float(r.get(b))) > 1e-12:
+                    return 'workbook %d (%s): two uses of one volatile name differ within one calculation: %s=%r %s=%r' % (i, how, a, r.get(a), b, r.get(b))
+    return None
+
+
 BOUNDED = [
+    Stage('B2:loaded-copied-and-reimported-workbooks-recalculate-volatile-cells', 'C13', _model_cases, _check_model,
+          '3 workbooks (volatile cells and dependents, defined names whose formula is volatile / constant / a cell, nested volatile calls) '
+          'x 3 ways of obtaining the model (loaded from file, deep copy, JSON re-import), each calculated 3 times with the clock / random '
+          'source advanced', parallel=False),
     Stage('B1:compiled-formula-re-evaluates-volatile-calls', 'C13', _fresh_cases, _check_fresh,
           '4 volatile functions x 7 nesting templates, each compiled once and called three times with the clock / random source advanced',
           parallel=False),
@@ -198,9 +307,11 @@ PROPERTIES = {
             'Partial. Proved: the impure wrapper yields "no value" while compiling and calls the function afresh otherwise; '
             'RANDBETWEEN returns an integer within its bounds; table obligations: the four volatile names are registered with the '
             'compiling flag and the impure wrapper, AstBuilder.compile sets the flag around the pre-evaluation. '
-            'Bounded: compiled formulas with a volatile call at several depths re-evaluate it on every call.'),
+            'Bounded: compiled formulas with a volatile call at several depths re-evaluate it on every call; workbooks loaded from file, '
+            'deep-copied and re-imported from JSON (volatile cells, dependents, volatile / constant / cell-valued defined names) recalculate '
+            'every volatile cell and dependent on each calculation, with one value per calculation.'),
         assumptions=['0 <= np.random.rand() < 1', 'schedula treats a NONE output as not produced and keeps such nodes out of the pruned graph (assumed)'],
-        not_proved=['never frozen through ExcelModel.compile / copy / JSON import, one snapshot per calculation: rest on schedula (not decided)'],
+        not_proved=['never frozen through ExcelModel load / copy / JSON import, one snapshot per calculation: rest on schedula - bounded stage B2 only (3 workbooks x 3 ways of obtaining the model)'],
     ),
 }
 
